@@ -1521,9 +1521,65 @@ pub fn run_c12(ctx: &Ctx) -> i32 {
             }
         }
     }
+    // daemon side, histories: whole lifetimes of the real polling loop (one invocation per history, so what the loop
+    // carries from one poll to the next is carried) over answers / silences / late replies; every report that reaches
+    // the writer thread must carry, as its as-of, the monotonic reading of the start of ITS poll. A single poll per
+    // lifetime (above) cannot show an as-of that depends on what the previous poll saw.
+    let hist_depth = ctx.tier.pick(3, 4);
+    let mut halpha: Vec<Step> = vec![];
+    for ans in [Ans::TrackA, Ans::TrackB, Ans::Silent, Ans::Other] {
+        for lat in ctx.tier.pick(vec![0i64, 300, 2900], vec![0, 1, 300, 999, 2900]) {
+            halpha.push(Step { ans, phc_readable: true, gap_ms: 1000, latency_ms: lat, phc_read_errno: 0, wall_step_ms: 0 });
+        }
+    }
+    halpha.push(Step { ans: Ans::TrackA, phc_readable: false, gap_ms: 1000, latency_ms: 300, phc_read_errno: 0, wall_step_ms: 0 });
+    halpha.push(Step { ans: Ans::Silent, phc_readable: true, gap_ms: 6000, latency_ms: 2900, phc_read_errno: 0, wall_step_ms: 0 });
+    let hseqs = sequences(&halpha, hist_depth);
+    let hbase = ctx.scratch();
+    let hparts = par::map(2 * halpha.len(), |i| {
+        let (phc_cfg, first) = (i % 2 == 1, i / 2);
+        let dir = hbase.join(format!("c12h-{i}"));
+        let _ = std::fs::create_dir_all(&dir);
+        let mut sink = Sink::new();
+        let (mut n, mut reports) = (0u64, 0u64);
+        for seq in hseqs.iter().filter(|q| q[0] == halpha[first]) {
+            n += 1;
+            let doc = |k: usize| json!({"check": "C12", "side": "daemon", "phase": "histories", "phc_configured": phc_cfg, "failing_step": k,
+                "steps": seq.iter().map(|s| json!({"answer": format!("{:?}", s.ans), "phc_file_readable": s.phc_readable, "gap_ms": s.gap_ms, "reply_latency_ms": s.latency_ms})).collect::<Vec<_>>()});
+            match poller_run(seq, phc_cfg, &dir, false) {
+                Ok(res) => {
+                    // poll k starts at m0 + sum(gaps up to k) + sum(latencies before k)
+                    let mut start = 5000 * S;
+                    for (k, (msgs, _)) in res.iter().enumerate() {
+                        start += seq[k].gap_ms as i128 * 1_000_000;
+                        for m in msgs {
+                            if let Message::ClockErrorBoundData((_, _, as_of)) = m {
+                                reports += 1;
+                                let a = ts_ns(as_of.tv_sec, as_of.tv_nsec);
+                                if a != start {
+                                    sink.add("C12:history:as-of-not-the-reading-before-the-request".into(), format!("poll {k} of the lifetime {:?}: the report carries as-of {a} ns, but the monotonic clock read {start} ns when that poll began and {} ns when the reply arrived: the as-of is not the reading taken before the request was issued", seq.iter().map(|s| format!("{:?}+{}ms", s.ans, s.latency_ms)).collect::<Vec<_>>(), start + seq[k].latency_ms as i128 * 1_000_000), doc(k));
+                                }
+                            }
+                        }
+                        start += seq[k].latency_ms as i128 * 1_000_000;
+                    }
+                }
+                Err(e) => sink.add("C12:history:panic".into(), format!("the polling loop panicked: {e}"), doc(0)),
+            }
+        }
+        (n, reports, sink)
+    });
+    let (mut hist_n, mut hist_reports) = (0u64, 0u64);
+    for (hn, hr, hs) in hparts {
+        hist_n += hn;
+        hist_reports += hr;
+        sink.merge(hs);
+    }
+    n += hist_n;
     let e2e = c12_end_to_end(ctx, &mut sink);
     let coverage = cov(vec![
         ("end_to_end_through_the_release_binary", e2e),
+        ("daemon_side_histories", json!({"lifetimes": hist_n, "reports_checked": hist_reports, "polls_per_lifetime": hist_depth, "alphabet": halpha.len(), "rule": "every sequence of that many polls over (chronyd answers with the PHC's / another reference id, is silent, answers something else) x (reply latency) + (PHC error bound unreadable) + (silence after a 6 s gap), with and without PHC configuration, each as ONE invocation of the real polling loop; oracle: as-of of every report = the monotonic reading at the start of its own poll"})),
         ("evaluations", json!(n)),
         ("distinct_nontrivial", json!(n)),
         ("rule", json!("cross product of (virtual time advance per clock read) x (reply latency) x (chronyd answers / silent) x (PHC not configured / configured and the reference / configured and not the reference / the reference with its error bound unreadable) on the daemon side and (advance per read) x (record age) x (API route) on the client side; every read of every clock is logged by the interposed clock_gettime; all cases distinct")),
@@ -1618,6 +1674,33 @@ fn replay(ctx: &Ctx, path: &std::path::Path) -> i32 {
             println!("report: leap status {leap}, update interval {iv} s, reference time {age} ns old, unrelated fields variant {aux}, after a synchronised report and a {} one", c["status_before"]);
             println!("published statuses: {:?}; the report classifies as {:?}; recorded: {}", runs[0], ref_classify(leap, ib, age).map(status_name), c["published_status"]);
             if runs[0] != runs[1] {
+                println!("NON-DETERMINISTIC replay");
+                return 2;
+            }
+            0
+        }
+        "C12" | "C13" if c["steps"].is_array() => {
+            // a lifetime of the real polling loop, run twice
+            let steps: Vec<Step> = c["steps"].as_array().unwrap().iter().map(|s| Step {
+                ans: match s["answer"].as_str().unwrap_or("") { "TrackA" => Ans::TrackA, "TrackB" => Ans::TrackB, "Silent" => Ans::Silent, "Unsync" => Ans::Unsync, "Stale" => Ans::Stale, _ => Ans::Other },
+                phc_readable: s["phc_file_readable"].as_bool().unwrap_or(true), gap_ms: s["gap_ms"].as_i64().unwrap_or(1000), latency_ms: s["reply_latency_ms"].as_i64().unwrap_or(0),
+                phc_read_errno: s["phc_read_errno"].as_i64().unwrap_or(0) as i32, wall_step_ms: s["realtime_clock_stepped_by_ms"].as_i64().unwrap_or(0) }).collect();
+            let phc_cfg = c["phc_configured"].as_bool().unwrap_or(false);
+            pipeline::set_aux_variant(c["report_field_variant"].as_u64().unwrap_or(0) as u8);
+            let dir = ctx.scratch().join("replay");
+            let _ = std::fs::create_dir_all(&dir);
+            let vary = c["check"] == "C13";
+            let run = || poller_run(&steps, phc_cfg, &dir, vary).map(|v| v.into_iter().map(|(m, e)| (m.iter().map(msg_class).collect::<Vec<_>>(), e)).collect::<Vec<_>>());
+            let (a, b) = (run(), run());
+            match &a {
+                Ok(res) => {
+                    for (k, (got, exp)) in res.iter().enumerate() {
+                        println!("poll {k} ({:?}, reply after {} ms): sent to the writer thread {:?}; the reference poller sends {exp}", steps[k].ans, steps[k].latency_ms, got);
+                    }
+                }
+                Err(e) => println!("the polling loop panicked: {e}"),
+            }
+            if a != b {
                 println!("NON-DETERMINISTIC replay");
                 return 2;
             }
